@@ -49,10 +49,17 @@ def result_set_lines(data):
     """Independent scan: byte offsets of the lines announcing a result set."""
     out = []
     pos = 0
-    for line in data.split(b'\n'):
-        if b'output data after' in line.lower():
-            out.append(pos)
+    lines = data.split(b'\n')
+    offs = []
+    for line in lines:
+        offs.append(pos)
         pos += len(line) + 1
+    for i, line in enumerate(lines):
+        low = line.lower()
+        if b'output data after' in low:
+            out.append(offs[i])                       # TOUGH2 family, TOUGH+
+        elif b'output after' in low and i >= 2 and lines[i - 2][1:6] == b'EEEEE':
+            out.append(offs[i])                       # AUTOUGH2: element table opens a full set
     return out
 
 
@@ -588,7 +595,7 @@ class NavMachine(ListingBase):
 
     # ---- deterministic sweep: every navigation sequence up to a bound (C07 quantifier)
     _LAYOUT = {}
-    SWEEP_QUICK = 300
+    SWEEP_QUICK = 900
 
     @classmethod
     def nav_alphabet(cls, n):
@@ -615,6 +622,8 @@ class NavMachine(ListingBase):
                 maxlen = 3 if (n <= 3 and size < 120000) else 2
                 for L in range(1, maxlen + 1):
                     segs.append((ci, n, L, a ** L))
+            # every single action on every listing first, then pairs, then triples
+            segs.sort(key=lambda sg: (sg[2], sg[0]))
             cls._LAYOUT[tier] = segs
         return cls._LAYOUT[tier]
 
